@@ -203,6 +203,20 @@ static void cmd_run(const J& c)
         b.set("run", (long long)runno);
         if (use_clock) { b.set("clk", vclock::now_ms()); }
         emit(b);
+        if (r.has("eval"))
+        {
+            // the embedder's expression evaluation (runtime::evaluate_expression; also what __EVAL uses)
+            bool success = false;
+            auto val = rt.evaluate_expression(r.str("eval"), success, false);
+            J e = ev("R");
+            e.set("run", (long long)runno).set("res", success ? "ok" : "runtime_error").set("state", state_name(rt.runtime_state()));
+            e.set("nctx", (long long)(rt.context_end() - rt.context_begin())).set("errflag", rt.__runtime_error());
+            e.set("exitreq", rt.is_exit_requested()).set("eval", true).set("value", success && !val.empty() ? clip(val.to_string_sqf()) : std::string("nil"));
+            if (use_clock) { e.set("clk", vclock::now_ms()); }
+            e.set("instr", st.instr);
+            emit(e);
+            continue;
+        }
         auto action = r.str("action", "start");
         auto res = rt.execute(action == "start" ? runtime::action::start : action == "assembly_step" ? runtime::action::assembly_step
             : action == "line_step" ? runtime::action::line_step : action == "leave_scope" ? runtime::action::leave_scope
